@@ -622,6 +622,15 @@ func (ex *Exec) paramVars() map[string]SV {
 	return vars
 }
 
+func (ex *Exec) isFreeVarCell(name string, v SV) bool {
+	for i, fv := range ex.fn.FreeVars {
+		if fv.Name() == name && i < len(ex.freeVars) && ex.freeVars[i].S == v.t.S {
+			return true
+		}
+	}
+	return false
+}
+
 func (ex *Exec) specCtx(vars map[string]SV, heap *Heap) *SpecCtx {
 	return &SpecCtx{ex: ex, pkg: ex.fn.Pkg, vars: vars, heap: heap, old: ex.entryHeap}
 }
@@ -712,6 +721,13 @@ func (ex *Exec) applyEffects(h *Heap, effs []Effect, l *Loop, guard Term) *Heap 
 				}
 			}
 			keepEval := !anyDyn
+			// locations named by the other (specific) effects of the same code are written too
+			specific := map[string]bool{}
+			for _, e2 := range effs {
+				if !e2.all {
+					specific[e2.key] = true
+				}
+			}
 			canWrite := func(k string) bool {
 				if anyDyn {
 					return true
@@ -729,6 +745,9 @@ func (ex *Exec) applyEffects(h *Heap, effs []Effect, l *Loop, guard Term) *Heap 
 			// ghost state changes only through explicit "modifies *" / "modifies ghost" clauses
 			nh.gen.parent = h.clone()
 			nh.gen.keep = func(k string) bool {
+				if specific[k] {
+					return false
+				}
 				if keepEval && (strings.HasPrefix(k, "F:") || strings.HasPrefix(k, "G:")) && !strings.HasPrefix(k, "F:anon") {
 					// write audit: no function reachable from the callees stores to this field / global
 					if _, isArr := q.so.keySort[k]; isArr && !canWrite(k) {
